@@ -22,4 +22,38 @@ def _chroot(ctx, pid, rep):
     return ["C18/" + "+".join(sorted(p["what"])) for k, p in prints if k == "VERDICT"]
 
 
-REPLAY = {"importclosure": _import, "chroot": _chroot}
+def _codec(ctx, pid, rep):
+    s = dict(rep["scenario"])
+    s["id"] = 1
+    if s.get("cli"):
+        s["cli"], s["tmp"] = core.build_sysl(ctx), ctx.sub("cli")
+    if s.get("root"):
+        s["root"] = core.repo_dir()
+    events, _ = core.vh(ctx, "codec", [s], resilient=True)
+    prints, _, _ = core.validate(ctx, "CodecTrace", "CodecTrace.cfg", events)
+    out = []
+    for k, p in prints:
+        if k == "VERDICT":
+            out.append("C09/%s/%s" % ("+".join(sorted(p["what"])), s["path"] if "path" in s else s["kind"]))
+    return out
+
+
+def _interop(ctx, pid, rep):
+    from . import fam_interop
+    s = dict(rep["scenario"])
+    s["id"], s["tmp"] = 1, ctx.sub("tmp")
+    events, prints, _ = fam_interop.run(ctx, pid, [s])
+    fam_interop.judge(ctx, pid, [s], events, prints)
+    return [v["sig"] for v in ctx.violations]
+
+
+def _rerun(ctx, pid, rep):
+    """Families without a single-scenario replayer: run the property's quick check again and report its signatures."""
+    import verif
+    fn = verif.checks()[pid]
+    c2 = core.Ctx(pid, "quick", ctx.seed)
+    fn(c2)
+    return [v["sig"] for v in c2.violations]
+
+
+REPLAY = {"importclosure": _import, "chroot": _chroot, "codec": _codec, "interop": _interop}
